@@ -1,7 +1,7 @@
 (* C02 — the three NTLMv1 response entry points against DESL of MS-NLMP. *)
 From Coq Require Import List Arith NArith Lia Bool.
 From Coq Require Import ZifyN ZifyNat ZifyBool.
-From Mant Require Import Prim.R Prim.Bytes Prim.C02Text Algo.MD4 Algo.DES Model.Ntlmv1 Spec.C02
+From Mant Require Import Prim.R Prim.Bytes Prim.Dec Prim.C02Text Algo.MD4 Algo.DES Model.Ntlmv1 Spec.C02
   Proofs.AlgoProofs Proofs.C02Parity.
 Import ListNotations.
 Open Scope N_scope.
@@ -49,28 +49,18 @@ Proof.
   unfold desl. cbn [firstn skipn app]. reflexivity.
 Qed.
 
-Definition hash_outcome (nthash password sc : list N) : R (list N) :=
-  if (lenN nthash =? 0) && (lenN password =? 0) then Err else
-  let h := if lenN nthash =? 0 then ntowfv1 password else nthash in
-  if negb (lenN h =? 16) then Err else
-  if negb (lenN sc =? 8) then Err else Ok (desl h sc).
-
 (* the complete behaviour of Hash *)
 Theorem ntlmv1_hash_char nthash password sc :
   ntlmv1_hash nthash password sc = hash_outcome nthash password sc.
 Proof.
   unfold ntlmv1_hash, hash_outcome.
   destruct ((lenN nthash =? 0) && (lenN password =? 0)); [reflexivity|].
-  change (nt_hash password) with (ntowfv1 password).
-  remember (if lenN nthash =? 0 then ntowfv1 password else nthash) as h eqn:Eh. clear Eh.
+  change (nt_hash password) with (ntowfv1_of password).
+  remember (if lenN nthash =? 0 then ntowfv1_of password else nthash) as h eqn:Eh. clear Eh.
   destruct (N.eqb_spec (lenN h) 16) as [Hh|]; cbn [negb]; [|reflexivity].
   destruct (N.eqb_spec (lenN sc) 8) as [Hs|]; cbn [negb]; [|reflexivity].
   apply hash_core; unfold lenN in *; lia.
 Qed.
-
-Definition nt_response_outcome (nthash sc : list N) : R (list N) :=
-  if negb (lenN nthash =? 16) then Err else
-  if negb (lenN sc =? 8) then Err else Ok (desl nthash sc).
 
 Lemma response_core h sc :
   length h = 16%nat -> length sc = 8%nat ->
@@ -131,6 +121,14 @@ Proof.
   rewrite E1, E2. cbn [N.eqb Pos.eqb andb negb]. rewrite E1. split; reflexivity.
 Qed.
 
+Theorem v1_string nthash password sc :
+  length nthash = 16%nat -> length sc = 8%nat ->
+  ntlmv1_string nthash password sc = Ok (Prim.Dec.hex_of_bytes true (desl nthash sc)).
+Proof.
+  intros Hh Hs. unfold ntlmv1_string. destruct (v1_agree nthash password sc Hh Hs) as [E _].
+  rewrite E. reflexivity.
+Qed.
+
 (* through NewNTLMv1WithPassword: NT hash = NTOWFv1(password) *)
 Theorem v1_password_agree upper password sc :
   length sc = 8%nat ->
@@ -156,6 +154,7 @@ Proof.
   destruct password as [|x p]; [congruence|].
   change (lenN (@nil N)) with 0. rewrite lenN_cons.
   destruct (N.eqb_spec (1 + lenN p) 0) as [E|_]; [lia|]. cbn [N.eqb andb].
+  change (ntowfv1_of (x :: p)) with (ntowfv1 (x :: p)).
   rewrite (lenN_eq _ _ (ntowfv1_length (x :: p))), (lenN_eq _ _ Hs). reflexivity.
 Qed.
 
